@@ -19,6 +19,7 @@ META = dict(
     "AccessoryDisconnectedError (or their own CancelledError) Split sweep: every two-piece split position of a response x {Content-Length, chunked (1/2 chunks), header-case variants} x {plain, encrypted} x {with, without an interleaved event}, followed by a second request; further configurations under byte-wise reads and reads that end inside a block.",
     note="environment model = VirtualLoop/MemTransport (conformance-tested against stock asyncio); bounded depth D and preemptions P as reported",
     design_ref="DESIGN.md §4 C08",
+    debug_pass="thorough",
     rule="state = canonical (protocol queues, parser, transport, callers, responder queue, timers); transition = one environment event or loop iteration; execution = maximal path",
 )
 
@@ -297,6 +298,14 @@ class H(explore.Harness):
                 elif t.cancelled() or t.exception() is not None:
                     if not any(m[0] == "cancel" and m[1] == k for m in self.abandon_marks):
                         self.viol.append(("response-delivered-but-request-failed", {"caller": k, "err": repr(t.exception())[:120] if not t.cancelled() else "cancelled"}))
+            # (a') a caller gets its turn: with a live connection and fewer requests on the wire than the connection allows, a waiting request has
+            # been written (a slot that a failed caller never gave back would starve everybody behind it, reconnects included)
+            cur = self._cur()
+            if cur is not None and cur.transport is not None and not cur.transport.is_closing() and cur.peer_open and not getattr(cur, "rst_pending", False) and not self.app_closed:
+                on_wire = [k for k, t in self.tasks.items() if not t.done() and self.sent_on.get(str(k)) == cur.cid]
+                waiting = [k for k, t in self.tasks.items() if not t.done() and str(k) not in self.sent_on]
+                if waiting and len(on_wire) < self.limit and self.conn.is_connected:
+                    self.viol.append(("waiting-request-not-written-although-the-connection-has-a-free-slot", {"waiting": waiting, "on_wire": on_wire, "limit": self.limit, "cid": cur.cid}))
             # (b) promptness: once a connection is abandoned (closed by the controller) or dropped, nothing written on it may still be waiting
             for k, t in self.tasks.items():
                 if t.done() or str(k) not in self.sent_on:
@@ -500,6 +509,8 @@ def run(ctx):
         dict(limit=2, callers=2, P=1, secure=False),
         dict(limit=3, callers=3, P=0 if quick else 1, secure=False),
         dict(limit=1, callers=2, P=0 if quick else 1, secure=True),
+        # three callers behind one slot, across a loss of the connection and the reconnect that follows
+        dict(limit=1, callers=3, P=0, secure=False, deep=True),
         # a reset that the kernel has but the loop has not seen yet, racing cancellations and the 30 s timer
         dict(limit=1, callers=2, P=1 if quick else 2, secure=False, rst_window=True),
         # the same spaces under other environments: byte-wise reads; chunked responses in reads that end inside a block
@@ -510,7 +521,7 @@ def run(ctx):
     work = []
     for p in configs:
         p = dict(p, seed=ctx.seed)
-        d = depth - (1 if p["secure"] or p["callers"] == 3 else 0)
+        d = depth - (1 if p["secure"] or p["callers"] == 3 else 0) + (2 if p.get("deep") else 0)
         rs = explore.roots(lambda: H(p), 3)
         _determinism(p, rs[len(rs) // 2])
         _determinism(p, rs[-1])
